@@ -88,6 +88,13 @@ SCOPES = {
     '44': ("src/smbus_request.rs and src/smbus_response.rs", OWN),
     '45': ("src/smbus.rs", OWN),
     '46': ("the whole crate: small, local, independent edits in every file (at least 40 separate hunks)", OWN),
+    # round 7: free choice, one file group each
+    '51': ("src/base_packet.rs", OWN),
+    '52': ("src/control_packet.rs and src/vendor_packets.rs", OWN),
+    '53': ("src/smbus_proto.rs and src/mctp_traits.rs", OWN),
+    '54': ("src/smbus_request.rs", OWN),
+    '55': ("src/smbus_response.rs", OWN),
+    '56': ("the receive half of src/smbus.rs (`get_length`, `decode_packet` and their private helpers; leave `process_packet` alone)", OWN),
 }
 
 
